@@ -387,8 +387,6 @@ impl Allocator {
         } else {
           #[cfg(feature = "gc_log_free")]
           debug_free_obj(&obj);
-
-          remaining += obj.size();
         }
 
         retain
